@@ -8,10 +8,10 @@ SIMCORE = os.path.join(VERIF, "simcore")
 # property -> (module, variants, quick runs, thorough runs)
 PROPS = {
     "C18": ("atom", ["le"], 150000, 4000000),
-    "C16": ("atom", ["le", "be"], 80000, 2500000),
+    "C16": ("atom", ["le", "be", "beport"], 90000, 2700000),
     "C17": ("atom", ["le", "be"], 80000, 2500000),
     "C05": ("mem+atom", ["le", "gnuld", "gccO2", "clangO3"], 15000, 360000),
-    "C19": ("atom+mem", ["be"], 16000, 500000),
+    "C19": ("atom+mem", ["be", "beport"], 24000, 700000),
 }
 
 
@@ -32,7 +32,7 @@ def build(module, variant):
     gen = gen_module(module)
     rt_files = [os.path.join(REPO, "w2c2", "w2c2_base.h")] + [os.path.join(REPO, "futex", f) for f in ("futex.c", "futex.h", "list.c", "list.h", "map.c", "map.h")]
     vfiles = glob_files(ENG, (".c", ".cpp", ".h")) + glob_files(SIMCORE, (".cpp", ".h"))
-    extra = ["-DWASM_ENDIAN=WASM_BIG_ENDIAN"] if variant == "be" else []
+    extra = ["-DWASM_ENDIAN=WASM_BIG_ENDIAN"] if variant in ("be", "beport") else []
     key = sha(xlkey, hash_files(rt_files), hash_files(vfiles), gen, module, variant, " ".join(extra), "v5")
     d, ok = cached_dir("e1", key)
     exe = os.path.join(d, "simrt")
@@ -53,6 +53,15 @@ def build(module, variant):
     sut = ["clang", "-O1", "-g", "-w"] + SAN + cov + ["-include", os.path.join(ENG, "sim_atomics.h"), "-DWASM_THREADS_PTHREADS",
                                                         "-I" + os.path.join(REPO, "w2c2")] + extra
     cmds = [sut + ["-c", os.path.join(d, module + ".c"), "-o", os.path.join(d, "mod.o")]]
+    if variant == "beport":
+        # big-endian build with the header's portable mask-and-shift byte-swap macros (what a compiler without bswap builtins gets):
+        # the module is compiled through a wrapper that, after the system headers, poses as GCC 4.7 (atomics yes, bswap builtins no)
+        with open(os.path.join(d, "mod_port.c"), "w") as f:
+            f.write("#include <stddef.h>\n#include <math.h>\n#include <string.h>\n#include <stdlib.h>\n#include <stdint.h>\n#include <assert.h>\n#include <errno.h>\n"
+                    "#include <endian.h>\n#include <float.h>\n#include <pthread.h>\n#include <stdio.h>\n#include <limits.h>\n#include <time.h>\n"
+                    "#undef __clang__\n#undef __GNUC__\n#undef __GNUC_MINOR__\n#define __GNUC__ 4\n#define __GNUC_MINOR__ 7\n"
+                    '#include "%s.c"\n' % module)
+        cmds[0] = sut + ["-I" + d, "-c", os.path.join(d, "mod_port.c"), "-o", os.path.join(d, "mod.o")]
     # variants 'gccO2' / 'clangO3': the generated module as a user builds it - an optimising compiler, no instrumentation
     # (the module then has no preemption points of its own; used for the sequential histories of C05 only)
     if variant in ("gccO2", "clangO3"):
@@ -191,7 +200,7 @@ def check(prop, tier, seed, replay=None):
         be = " be=1" in txt
         mod = "mem" if "# module mem" in txt else "atom"
         mv = re.search(r"^# variant (\S+)", txt, re.M)
-        var = "be" if be else (mv.group(1) if mv and mv.group(1) in variants else "le")
+        var = mv.group(1) if mv and mv.group(1) in variants else ("be" if be else "le")
         exe = exes.get((mod, var)) or build(mod, var)
         r = subprocess.run([exe, "--replay", replay, "--trace"], stdout=subprocess.PIPE, stderr=subprocess.PIPE)
         sys.stdout.write(r.stdout.decode(errors="replace"))
@@ -272,7 +281,7 @@ def check(prop, tier, seed, replay=None):
         be = " be=1" in txt
         mod = "mem" if "# module mem" in txt else "atom"
         mv = re.search(r"^# variant (\S+)", txt, re.M)
-        var = "be" if be else (mv.group(1) if mv and mv.group(1) in variants else "le")
+        var = mv.group(1) if mv and mv.group(1) in variants else ("be" if be else "le")
         return [exes.get((mod, var), list(exes.values())[0]), "--replay", path]
 
     def classify(raw, rc):
